@@ -79,7 +79,7 @@ check('C20', 'fault_enumeration',
       'from the OBSERVED outcome: complete finite report (parsed by the report grammar, no nan/inf token) | exactly one diagnostic line with '
       'return 23 | usage error; anything else (uncaught exception, NaN/inf printed, partial report, several lines with 23, no output) is a '
       'violation unless it is a recorded known finding (matched by the fault = option / field / value without its base command, exception type and '
-      'innermost function; two-fault scenarios are attributed to the fault that is recorded as failing on its own). After fixes F27-F46 one C20 '
+      'innermost function; two-fault scenarios are attributed to the fault that is recorded as failing on its own). After fixes F27-F47 one C20 '
       'finding is left open (closed arc on the end of an earlier wire, the C12 finding seen from the command line). code->spec: the Stage events of every real run are validated as a behaviour of the pipeline '
       'by spec/TraceCmdline.tla in one batched TLC run (stage order, no diagnostic after the frequency loop was entered); thorough tier: three '
       'simultaneous faults.',
